@@ -16,6 +16,9 @@ func TestProp(t *testing.T) { hx.Check(t, "files", Gen, Exec) }
 // TestPropConc: concurrent first use, each case in a child process.
 func TestPropConc(t *testing.T) { hx.Check(t, "conc", GenConc, ExecConc) }
 
+// TestPropLoose: consistency-only cases (broken files, same-layer duplicates).
+func TestPropLoose(t *testing.T) { hx.Check(t, "loose", GenLoose, ExecLoose) }
+
 // TestHelperChild is the child side of a concurrent case (selected by the parent through
 // the environment; skipped otherwise).
 func TestHelperChild(t *testing.T) {
@@ -26,5 +29,5 @@ func TestHelperChild(t *testing.T) {
 }
 
 func TestReplay(t *testing.T) {
-	hx.Replay(t, map[string]func(json.RawMessage) (hx.Verdict, error){"files": hx.Exec(Exec), "": hx.Exec(Exec), "conc": hx.Exec(ExecConc)})
+	hx.Replay(t, map[string]func(json.RawMessage) (hx.Verdict, error){"files": hx.Exec(Exec), "": hx.Exec(Exec), "conc": hx.Exec(ExecConc), "loose": hx.Exec(ExecLoose)})
 }
